@@ -127,6 +127,8 @@ HOP = st.one_of(
     st.tuples(st.just("table_set"), P, P), st.tuples(st.just("group_add"), P, P), st.tuples(st.just("mlist_append"), P, P),
     st.tuples(st.just("slice_mult"), P, st.integers(0, 2), st.integers(0, 3), st.integers(0, 3)),
     st.tuples(st.just("slice_mult"), P, st.integers(0, 2), st.integers(0, 3), st.integers(0, 3)),
+    st.tuples(st.just("slice_mult"), P, st.integers(0, 2), st.integers(0, 3), st.integers(0, 3)),
+    st.tuples(st.just("remove_one"), P, P),
     st.tuples(st.just("remove_one"), P, P),
     st.tuples(st.just("kill_owner")), st.tuples(st.just("gc")),
 ).map(list)
@@ -138,10 +140,17 @@ def hist_strategy(tier):
         "npool": st.integers(2, 5),
         "prelink": st.lists(st.tuples(st.sampled_from(["child", "children", "table", "group", "mlist"]), st.integers(0, 2), P).map(list), max_size=3),
         "ops": st.lists(HOP, min_size=2, max_size=25),
+        # duplicates scenario: the first expression goes through root.children, which starts as [x, x, y]
+        "dups": st.sampled_from([None, None, True, False]),
     })
 
 
 def hist_run(case, ctx):
+    if case.get("dups") is not None:
+        case = dict(case)
+        case["exprs"] = [[[[["children", bool(case["dups"])]], "value", True]]] + list(case["exprs"][1:])
+        case["prelink"] = [["children", 0, 1], ["children", 0, 1], ["children", 0, 2]] + list(case["prelink"])
+        case["ops"] = [[o[0], 0] + list(o[2:]) if o[0] in ("slice_mult", "remove_one", "pop", "append") else o for o in case["ops"]]
     pool, link = make_pool(case)
     npool = len(pool)
     root = pool[0]
